@@ -273,10 +273,10 @@ func (s *psys) Check() []explore.Viol {
 
 func sysModels(run *report.Run) []*explore.Model {
 	triples := [][]string{{"node-1", "node-10", "node-2"}}
-	depth := 5
+	depth := 6
 	if run.Thorough() {
 		triples = append(triples, []string{"a", "ab", "b"}, []string{"Node-1", "node-1", "10.0.0.1:8081"})
-		depth = 6
+		depth = 7
 	}
 	var ms []*explore.Model
 	for _, tr := range triples {
